@@ -628,7 +628,7 @@ pub fn two_block_job(spec: SpecId, name: &'static str, a: Vec<(String, TxEnv)>, 
                             let (addrs, slots) = two_block_universe();
                             reads = format!("{:?}", crate::case::read_universe(&state2, &addrs, &slots));
                             let bundle = state2.parallel_take_bundle(BundleRetention::Reverts);
-                            Observation { error: None, outcomes, bundle, panic: None }
+                            Observation { error: None, outcomes, bundle, panic: None, reads: None }
                         }
                         other => finish(s2, other),
                     }
